@@ -8,18 +8,55 @@ CHECKS = {
     "C08": {
         "level": "model_checking",
         "engine": "E3 lattice + E2 mc",
-        "technique": "bounded-exhaustive schema x mask x index-list x generator-stack lattice on the real dataset_t against the "
-                     "plain table the data source was filled from; explicit-state BFS over drop/shuffle/undrop/unshuffle "
-                     "histories against a per-feature reference state; forked out-of-range probes under ASan",
-        "level_text": "TODO",
-        "level_note": "TODO",
-        "rule": "TODO",
-        "assumptions": [],
+        "technique": "bounded-exhaustive schema x samples x missing-mask x target x generator-stack x index-list lattice on the real "
+                     "dataset_t against the plain table the data source was filled from; explicit-state BFS over "
+                     "drop/shuffle/undrop/unshuffle histories against a per-feature reference state; out-of-range index probes "
+                     "and two-list pairwise generators in forked children under ASan+UBSan",
+        "level_text": "every schema of 1..2 (thorough: 1..3 over 8 representative kinds) features over 16 feature kinds plus 4 fixed "
+                      "12-feature schemas x N in {1,7,8,9,17} x 6 missing-value masks x (17 targets with the identity stack + 4 further "
+                      "generator stacks x 3 targets) is loaded into the real datasource_t/dataset_t; per-feature select, flatten, "
+                      "targets, the feature/column bookkeeping and the select/flatten/targets iterators (4 batch sizes, 1/2/16 threads) "
+                      "are compared with the table for 6 sample index lists (incl. repeats, reversed, empty); all drop/shuffle/"
+                      "undrop/unshuffle histories up to length 4 (thorough 5) on 8 three-feature datasets are replayed on the real "
+                      "dataset and compared with a reference state after every step; every out-of-range sample/feature index call is "
+                      "executed in a forked child of the ASan build",
+        "level_note": "trusted: the table (std::optional per cell) and the 150 lines that encode it (one-hot +-1 with C-1 columns, "
+                      "2*hit-1, row-major), vt::table_datasource_t (fills the library's own exactly sized storage through the "
+                      "protected datasource_t::set), feature names as the identity of generated features, ASan/UBSan as the "
+                      "'never read' oracle, engine/detrand.cpp for replayable shuffles. Gradient feature values are not "
+                      "recomputed (the statement fixes none): their two views must agree and be NaN exactly where the source is "
+                      "missing",
+        "rule": "views: an evaluation = one view (select of one feature, flatten, targets, target select, one iterator loop) compared "
+                "element-wise and exactly with the table; non-trivial = some input column of the case has both given and missing "
+                "samples. history: a transition = one operation on a freshly replayed real dataset followed by the comparison of "
+                "both views of all three features on three index lists; non-trivial = the resulting reference state has a dropped "
+                "or shuffled feature. bounds: an evaluation = one call in a forked child; non-trivial = the index is out of range. "
+                "pairs: an evaluation = one (features1, features2) pair; non-trivial = some cross pair has its larger input in "
+                "features1",
+        "assumptions": [
+            "the gradient generator ignores inputs with fewer than 3 rows or columns, so no structured feature within the literal "
+            "dims bound 3x3x2 of the property produces gradient features: the gradient stacks append a u8 1x3x4 input (stated in "
+            "the axes); gradient values themselves are not part of the statement",
+            "flatten/targets iterators with scaling 'none' replace non-finite values by 0 (scalar_stats_t::scale, documented by the "
+            "repository's check_flatten fixture): they are compared with the flattened table after the same replacement",
+            "length-3 schemas (thorough) range over 8 of the 16 kinds; thread pools of 2 and 16 workers are exercised on a thinner "
+            "lattice (viewsmt.* axes)",
+            "where the statement is silent (undrop on a shuffled feature, unshuffle on a dropped feature, shuffle of a dropped "
+            "feature) either outcome is accepted and the reference follows the implementation",
+        ],
         "deadline": {"quick": 300, "thorough": 1500},
         "stages": [
-            {"name": "bounds", "harness": "c08_views", "variant": "asan", "args": ["--stage", "bounds"], "share": 0.3,
+            {"name": "views", "harness": "c08_views", "args": ["--stage", "views"], "share": 0.55,
+             "what": "per-feature select, flatten, targets, bookkeeping and the three iterators vs the table"},
+            {"name": "history", "harness": "c08_views", "args": ["--stage", "history"], "shards": 8, "share": 0.15,
+             "what": "BFS over drop/shuffle/undrop/unshuffle histories: both views of all features vs the per-feature reference state"},
+            {"name": "pairs", "harness": "c08_views", "variant": "asan", "args": ["--stage", "pairs"], "share": 0.1,
              "crash_is_violation": True,
-             "what": "out-of-range sample / feature indices are rejected with an exception and never read (ASan)"},
+             "what": "pairwise product built from two feature lists: features = unordered cross pairs, values = product of the two "
+                     "sources, no memory error (ASan, forked children)"},
+            {"name": "bounds", "harness": "c08_views", "variant": "asan", "args": ["--stage", "bounds"], "share": 0.2,
+             "crash_is_violation": True,
+             "what": "out-of-range sample / feature indices are rejected with an exception and never read (ASan, forked children)"},
         ],
     },
 }
